@@ -17,3 +17,4 @@ PROP = {
     "level_text": "Proof: the records served are the own record iff distance 0 was requested followed by the table entries at the sorted, de-duplicated non-zero requested distances (nodes_by_distances, tied to C08's exactness theorem), never the requester's record, at most max+1 (served_records, served_count, requester_absent); the split puts records into packets whose sizes sum to < 1280-104, all with the request id and total = number of packets (split_sound, split_framing, answered); with every record (stored or pending) <= 300 bytes every packet encodes to <= 1280 bytes on the wire, worst case 1279 (fits_datagram, served_fits_datagram); a PING from a non-zero port gets exactly one PONG with the local seq and the observed ip/port (pong_exact). Tied to /repo by the service differential run with records padded to 300 bytes, distance lists empty/duplicate/unsorted/out of range, and size/id/total/source monitors on the real encodings.",
     "level_note": "Trusted: Lean kernel, extract.py, harness/driver. The tie model<->code is a sampled differential check of the real Service behind a scripted handler (Discv5::start_scripted); each NODES response is additionally encoded with the real codec and measured. Records are abstract (id, seq, sockets, size <= 300 as the enr crate enforces); fits_datagram assumes request id <= 8 bytes and max_nodes_response <= 125 (one-byte total).",
 }
+PROP['rule'] += " One requester in four is on the permit list and on the ban list at once (the permit list takes precedence in the packet filter): its requests are owed their answers like anybody's."
